@@ -134,6 +134,145 @@ func (c *gpChecker) once(kind string, n int, sigBase, sigSuffix, what string) bo
 	return false
 }
 
+// times is once for a name that is planted `want` times in the case (the same name declared in several files):
+// the flattened model has to list it as many times as it is declared.
+func (c *gpChecker) times(kind string, n, want int, sigBase, sigSuffix, what string) bool {
+	if want <= 1 {
+		return c.once(kind, n, sigBase, sigSuffix, what)
+	}
+	c.st.Planted[kind]++
+	sigSuffix += "/name-declared-in-several-files"
+	switch {
+	case n == want:
+		c.st.Matched[kind]++
+		c.st.Info["same_name_declarations_matched"]++
+		return true
+	case n < want:
+		c.bad(sigBase+"-missing"+sigSuffix, "%s is declared in %d files of the scan but listed %d time(s)", what, want, n)
+	default:
+		c.bad(sigBase+"-duplicated"+sigSuffix, "%s is declared in %d files of the scan but listed %d times", what, want, n)
+	}
+	return false
+}
+
+// gpAssign matches k planted declarations of one name with the k entries listed under that name so that the
+// number of members found at their own declaration is maximal (k <= 3: all permutations are tried; ties keep the
+// listed order). It returns, per planted declaration, the position of its entry.
+func gpAssign(k int, score func(planted, entry int) int) []int {
+	best := make([]int, k)
+	for i := range best {
+		best[i] = i
+	}
+	if k > 4 {
+		return best
+	}
+	bestScore := -1
+	perm := make([]int, k)
+	used := make([]bool, k)
+	var rec func(p, sum int)
+	rec = func(p, sum int) {
+		if p == k {
+			if sum > bestScore {
+				bestScore = sum
+				copy(best, perm)
+			}
+			return
+		}
+		for e := 0; e < k; e++ {
+			if !used[e] {
+				used[e] = true
+				perm[p] = e
+				rec(p+1, sum+score(p, e))
+				used[e] = false
+			}
+		}
+	}
+	rec(0, 0)
+	return best
+}
+
+// gpMultiset is the multiplicity of every planted name over all files of a case and, for names planted more than
+// once, which listed entry belongs to which planted declaration.
+type gpMultiset struct {
+	want   map[string]int
+	assign map[interface{}]int
+}
+
+type gpPlanted struct {
+	ptr     interface{}
+	members []string
+}
+
+func newGPMultiset(byName map[string][]gpPlanted, entries []GPDataStruct) gpMultiset {
+	ms := gpMultiset{want: map[string]int{}, assign: map[interface{}]int{}}
+	for name, list := range byName {
+		ms.want[name] = len(list)
+		if len(list) < 2 {
+			continue
+		}
+		var idxs []int
+		for i := range entries {
+			if entries[i].NodeName == name {
+				idxs = append(idxs, i)
+			}
+		}
+		if len(idxs) != len(list) {
+			continue // reported as missing / duplicated
+		}
+		list := list
+		pos := gpAssign(len(list), func(p, e int) int {
+			ent := &entries[idxs[e]]
+			n := 0
+			for _, m := range list[p].members {
+				for _, x := range ent.InOutProperties {
+					if x.ParamName == m {
+						n++
+					}
+				}
+				for _, x := range ent.Functions {
+					if x.Name == m {
+						n++
+					}
+				}
+				for _, x := range ent.FunctionCalls {
+					if x.FunctionName == m {
+						n++
+					}
+				}
+				for _, x := range ent.Annotations {
+					if x.Name == m {
+						n++
+					}
+				}
+			}
+			return n
+		})
+		for p := range list {
+			ms.assign[list[p].ptr] = idxs[pos[p]]
+		}
+	}
+	return ms
+}
+
+func (ms gpMultiset) wantOf(name string) int {
+	if n, ok := ms.want[name]; ok {
+		return n
+	}
+	return 1
+}
+
+// entryOf returns the index of the entry that belongs to a planted declaration, given the indices of the entries
+// listed under its name (their number already equals the planted multiplicity).
+func (ms gpMultiset) entryOf(ptr interface{}, idxs []int) int {
+	if len(idxs) == 1 {
+		return idxs[0]
+	}
+	if i, ok := ms.assign[ptr]; ok {
+		return i
+	}
+	return -1
+}
+
 func gpExported(name string) bool {
 	for _, r := range name {
 		return unicode.IsUpper(r)
@@ -146,7 +285,8 @@ func gpExported(name string) bool {
 
 type gpGoView struct {
 	types []GPDataStruct // entries that may be structs / interfaces
-	funcs []GPFunction   // top-level function nodes
+	funcs []GPFunction   // top-level function nodes (flat model: same indices as types)
+	ms    gpMultiset     // zero value: every name is planted once
 }
 
 func gpGoViewOfContainer(c *GPContainer) gpGoView {
@@ -261,19 +401,25 @@ func (c *gpChecker) goCalls(f *gopygen.GoFile, fn *gopygen.GoFunc, node *GPFunct
 
 func (c *gpChecker) goFile(f *gopygen.GoFile, v gpGoView, flat bool) {
 	sfx := goTypeSuffix(f)
-	entries := func(name string) []*GPDataStruct {
-		var out []*GPDataStruct
+	entries := func(name string) []int {
+		var out []int
 		for i := range v.types {
 			if v.types[i].NodeName == name {
-				out = append(out, &v.types[i])
+				out = append(out, i)
 			}
 		}
 		return out
 	}
-	// foreign-owner scans
-	propElsewhere := func(name, owner string) (n int, where string) {
+	// foreign-owner scans: every entry but the declaration's own one (own < 0: every entry under another name)
+	foreign := func(i, own int, owner string) bool {
+		if own >= 0 {
+			return i != own
+		}
+		return v.types[i].NodeName != owner
+	}
+	propElsewhere := func(name, owner string, own int) (n int, where string) {
 		for i := range v.types {
-			if v.types[i].NodeName == owner {
+			if !foreign(i, own, owner) {
 				continue
 			}
 			if k := c.goNamesIn(v.types[i].InOutProperties, name); k > 0 {
@@ -283,9 +429,9 @@ func (c *gpChecker) goFile(f *gopygen.GoFile, v gpGoView, flat bool) {
 		}
 		return
 	}
-	funcElsewhere := func(name, owner string) (n int, where string) {
+	funcElsewhere := func(name, owner string, own int) (n int, where string) {
 		for i := range v.types {
-			if v.types[i].NodeName == owner {
+			if !foreign(i, own, owner) {
 				continue
 			}
 			for _, fn := range v.types[i].Functions {
@@ -297,30 +443,33 @@ func (c *gpChecker) goFile(f *gopygen.GoFile, v gpGoView, flat bool) {
 		}
 		return
 	}
-	topLevel := func(name string) (n int, node *GPFunction) {
+	topLevel := func(name string) []int {
+		var out []int
 		for i := range v.funcs {
 			if v.funcs[i].Name == name {
-				n++
-				node = &v.funcs[i]
+				out = append(out, i)
 			}
 		}
-		return
+		return out
 	}
 
 	for _, st := range f.Structs() {
 		es := entries(st.Name)
 		what := "struct " + st.Name
-		own := c.once("go_struct", len(es), "go/struct", sfx, what)
+		own := -1
+		if c.times("go_struct", len(es), v.ms.wantOf(st.Name), "go/struct", sfx, what) {
+			own = v.ms.entryOf(st, es)
+		}
 		for _, fl := range st.Fields {
 			for j, name := range fl.Names {
-				if own {
+				if own >= 0 {
 					fs := ""
 					if j > 0 {
 						fs = "/2nd+-name-of-multi-name-field"
 					}
-					c.once("go_field", c.goNamesIn(es[0].InOutProperties, name), "go/field", fs, fmt.Sprintf("field %s of %s", name, what))
+					c.once("go_field", c.goNamesIn(v.types[own].InOutProperties, name), "go/field", fs, fmt.Sprintf("field %s of %s", name, what))
 				}
-				if n, where := propElsewhere(name, st.Name); n > 0 {
+				if n, where := propElsewhere(name, st.Name, own); n > 0 {
 					c.bad("go/field-under-other-type"+sfx, "field %s of %s is listed under %s", name, what, where)
 				}
 			}
@@ -331,13 +480,13 @@ func (c *gpChecker) goFile(f *gopygen.GoFile, v gpGoView, flat bool) {
 				rk = "/pointer-receiver"
 			}
 			mwhat := fmt.Sprintf("method %s of %s", me.Name, what)
-			if own {
+			if own >= 0 {
 				n := 0
 				var node *GPFunction
-				for i := range es[0].Functions {
-					if es[0].Functions[i].Name == me.Name {
+				for i := range v.types[own].Functions {
+					if v.types[own].Functions[i].Name == me.Name {
 						n++
-						node = &es[0].Functions[i]
+						node = &v.types[own].Functions[i]
 					}
 				}
 				if c.once("go_method", n, "go/method", rk, mwhat) {
@@ -345,10 +494,10 @@ func (c *gpChecker) goFile(f *gopygen.GoFile, v gpGoView, flat bool) {
 					c.goCalls(f, me, node, v, mwhat)
 				}
 			}
-			if n, where := funcElsewhere(me.Name, st.Name); n > 0 {
+			if n, where := funcElsewhere(me.Name, st.Name, own); n > 0 {
 				c.bad("go/method-under-other-type"+sfx, "%s is listed under %s", mwhat, where)
 			}
-			if n, _ := topLevel(me.Name); n > 0 {
+			if len(topLevel(me.Name)) > 0 {
 				c.bad("go/method-listed-as-function"+rk, "%s is listed as a top-level function", mwhat)
 			}
 		}
@@ -356,40 +505,49 @@ func (c *gpChecker) goFile(f *gopygen.GoFile, v gpGoView, flat bool) {
 	for _, it := range f.Ifaces() {
 		es := entries(it.Name)
 		what := "interface " + it.Name
-		own := c.once("go_iface", len(es), "go/interface", sfx, what)
+		own := -1
+		if c.times("go_iface", len(es), v.ms.wantOf(it.Name), "go/interface", sfx, what) {
+			own = v.ms.entryOf(it, es)
+		}
 		for _, m := range it.Methods {
-			if own {
-				c.once("go_iface_method", c.goNamesIn(es[0].InOutProperties, m.Name), "go/interface-method", "", fmt.Sprintf("method %s of %s", m.Name, what))
+			if own >= 0 {
+				c.once("go_iface_method", c.goNamesIn(v.types[own].InOutProperties, m.Name), "go/interface-method", "", fmt.Sprintf("method %s of %s", m.Name, what))
 			}
-			if n, where := propElsewhere(m.Name, it.Name); n > 0 {
+			if n, where := propElsewhere(m.Name, it.Name, own); n > 0 {
 				c.bad("go/interface-method-under-other-type"+sfx, "method %s of %s is listed under %s", m.Name, what, where)
 			}
-			if n, where := funcElsewhere(m.Name, it.Name); n > 0 {
+			if n, where := funcElsewhere(m.Name, it.Name, own); n > 0 {
 				c.bad("go/interface-method-under-other-type"+sfx, "method %s of %s is listed as a method of %s", m.Name, what, where)
 			}
 		}
 	}
 	for _, fn := range f.Funcs() {
 		what := "function " + fn.Name
-		n, node := topLevel(fn.Name)
+		idxs := topLevel(fn.Name)
+		want := v.ms.wantOf(fn.Name)
 		if flat && !gpExported(fn.Name) {
 			// the flattened model keeps exported functions only; a lower-case function may be absent, never doubled
 			c.st.Info["flat_unexported_functions_planted"]++
-			if n > 1 {
-				c.bad("go/function-duplicated", "%s is listed %d times", what, n)
+			if len(idxs) > want {
+				c.bad("go/function-duplicated", "%s is listed %d times", what, len(idxs))
 			}
-			if n != 1 {
+			if len(idxs) != want {
 				continue
 			}
 			c.st.Info["flat_unexported_functions_listed"]++
-		} else if !c.once("go_func", n, "go/function", "", what) {
+		} else if !c.times("go_func", len(idxs), want, "go/function", "", what) {
 			continue
 		}
+		own := v.ms.entryOf(fn, idxs)
+		if own < 0 {
+			continue
+		}
+		node := &v.funcs[own]
 		if !flat {
 			c.goParams(fn, node, what)
 		}
 		c.goCalls(f, fn, node, v, what)
-		if k, where := funcElsewhere(fn.Name, ""); k > 0 {
+		if k, where := funcElsewhere(fn.Name, "", -1); k > 0 {
 			c.bad("go/function-listed-as-method", "%s is listed as a method of %s", what, where)
 		}
 	}
@@ -447,6 +605,44 @@ func goTypeNames(f *gopygen.GoFile) []string {
 func CheckGoFlat(where string, files []*gopygen.GoFile, ds []GPDataStruct) ([]GPMismatch, *GPStats) {
 	c := &gpChecker{where: where, st: newGPStats()}
 	v := gpGoViewOfFlat(ds)
+	// the same name may be declared in several files of the scan (different directories): the flattened model
+	// has to carry every declaration, each with its own members
+	byName := map[string][]gpPlanted{}
+	for _, f := range files {
+		for _, st := range f.Structs() {
+			p := gpPlanted{ptr: st}
+			for _, fl := range st.Fields {
+				p.members = append(p.members, fl.Names...)
+			}
+			for _, me := range st.Methods {
+				p.members = append(p.members, me.Name)
+			}
+			byName[st.Name] = append(byName[st.Name], p)
+		}
+		for _, it := range f.Ifaces() {
+			p := gpPlanted{ptr: it}
+			for _, m := range it.Methods {
+				p.members = append(p.members, m.Name)
+			}
+			byName[it.Name] = append(byName[it.Name], p)
+		}
+		for _, fn := range f.Funcs() {
+			p := gpPlanted{ptr: fn}
+			for _, s := range fn.Body {
+				if s.Kind == gopygen.StCallPkg || s.Kind == gopygen.StCallRecv {
+					p.members = append(p.members, s.Func)
+				}
+			}
+			byName[fn.Name] = append(byName[fn.Name], p)
+		}
+	}
+	v.ms = newGPMultiset(byName, ds)
+	for name, n := range v.ms.want {
+		if n > 1 {
+			_ = name
+			c.st.Info["same_name_declarations_planted"] += n
+		}
+	}
 	for _, f := range files {
 		c.goFile(f, v, true)
 	}
